@@ -14,8 +14,8 @@ X: the REAL ExponentiatedGradient.fit driven by an exact cost-sensitive learner 
               value fairlearn stored) ;  also best_iter_ within the iterations run.
    error/viol/gap are only demanded when the constrained problem is feasible (LP status optimal); tolerance 1e-7 absolute.
 Scope: configurations = 5 parity moments x 5 bound settings (default .01, difference_bound .1/.02, ratio_bound .8 + slack .05, ratio_bound .6 slack 0)
-   x eps {.02,.1,.3} x max_iter {2,6,20,50} x run_linprog_step x eta0 {.5,2} (all 1200 combinations, each on `per_cfg` datasets drawn from a
-   seeded pool), nu in {None, .2, .02, 1e-4}; datasets: k in 2..3 (quick) / 2..5 (thorough) feature values, 2..3 groups, n in 4..15, mostly with
+   x eps {.02,.1,.3} x max_iter {2,6,20,50} x run_linprog_step x eta0 {.5,2} (all 1200 combinations, each on 2 (max_iter<=6) / 1 datasets in the quick tier, 16 / 8 in the thorough
+   tier, drawn from a seeded pool, 80% preferring datasets on which the constraint binds), nu in {None, .2, .02, 1e-4}; datasets: k in 2..3 (quick) / 2..5 (thorough) feature values, 2..3 groups, n in 4..15, mostly with
    feature correlated to the group (so that the constraint binds), group x label cells may be empty, single-member groups, duplicated rows;
    containers ndarray / DataFrame+Series / DataFrame+lists, group labels ints or strings in non-sorted order.
 NOT checked: heuristic learners, control features, sample weights (fit has none), the value of the automatic nu, predict() sampling (C10),
@@ -33,7 +33,7 @@ Sensitivity self-test (scratch worktree /tmp/agent_C08/r, `VERIF_REPO=... ./chec
    weights_ = Qs[-1] (last instead of best iterate; needs LP off)      -> C08:gap:underestimates
    early stop at gap < 2*nu                                            -> C08:early-stop:gap-not-below-nu
    Q_EG = Qsum/(t+2) (not normalised)                                  -> C08:weights:not-probability
-   no zero padding of weights_ (predictor outside the support)         -> C08:fit:raises (KeyError in _pmf_predict)
+   no zero padding of weights_ (predictor outside the support)         -> C08:fit:raises (reading the fitted model / _pmf_predict raises)
    _eval pairs errors with Q by position (needs a skipped predictor)   -> C08:gap:underestimates
    eval_gap tries mul 2,5,10 only (L_low from the response to 2*lambda)-> C08:gap:underestimates
    oracle weighs the objective by 0.5 (s)                              -> C08:gap:underestimates
@@ -101,7 +101,7 @@ def _cases(seed, kmax, per_cfg, pool_size):
     out, cache = [], {}
     cfgs = list(itertools.product(range(len(E.MOMENTS)), range(len(E.BOUNDS)), EPS, MAX_ITER, (True, False), ETA0))
     for mi, bi, eps, max_iter, lp, eta0 in cfgs:
-        for r in range(per_cfg):
+        for r in range(per_cfg if max_iter <= 6 else max(1, per_cfg // 2)):      # long runs cost 3x: half as many
             tries = 1 if rng.random() < 0.2 else 8       # 80%: prefer a dataset on which the constraint binds
             for _ in range(tries):
                 ds = pool[int(rng.integers(0, pool_size))]
@@ -230,9 +230,9 @@ def run_bounded(rep):
     kmax, per_cfg, pool = (3, 2, 40) if rep.tier == "quick" else (5, 16, 400)
     cases = _cases(rep.seed, kmax, per_cfg, pool)
     run_cases(rep, "expgrad_exact_learner_rtc",
-              rule="all 1200 combinations of 5 parity moments x 5 bound settings x eps{.02,.1,.3} x max_iter{2,6,20,50} x run_linprog_step x eta0{.5,2}, each on %d "
+              rule="all 1200 combinations of 5 parity moments x 5 bound settings x eps{.02,.1,.3} x max_iter{2,6,20,50} x run_linprog_step x eta0{.5,2}, each on %d (max_iter<=6) / %d "
                    "dataset(s) from a seeded pool of %d (k<=%d feature values, 2-3 groups, n 4..15, feature correlated with group, empty group x label cells, "
                    "single-member groups, duplicated rows), nu in {None,.2,.02,1e-4}, 3 container formats, int/string group labels; exact learner over all 2^k "
                    "functions; oracle: enumeration + LP over the class; non-trivial = support of Q > 1 or best_gap_ > 0 or the unconstrained optimum violates a "
-                   "constraint (and the constrained problem is feasible); distinct by full case" % (per_cfg, pool, kmax),
+                   "constraint (and the constrained problem is feasible); distinct by full case" % (per_cfg, max(1, per_cfg // 2), pool, kmax),
               bound=f"n <= 15, k <= {kmax}, groups <= 3, max_iter <= 50", cases=cases, check_case=_check, exhaustive=False)
